@@ -54,7 +54,7 @@ impl Prop for HalfToneShift {
         12000
     }
     fn cases(&self, tier: Tier) -> u32 {
-        tier.pick(1_500, 40_000)
+        tier.pick(10_000, 150_000)
     }
     fn decode(&self, t: &mut Tape, _: Tier) -> Case {
         let mut base = gen_engine_case(t, 12, 15, false, GenOpts::default());
